@@ -377,7 +377,7 @@ def permute_incidence_fixed_sums(incidence, k=1, seed=None):
     while k < K:
         swappable = False
         while not swappable:
-            chosen_rows = np.random.choice(rows, 2, replace=False)
+            chosen_rows = random_sample(rows, 2, prng=prng)
             s0, s1 = chosen_rows
 
             potential_cols0, = np.where((incidence[s0, :] == 1) &
